@@ -737,8 +737,49 @@ def run(ctx):
         ctx.forall(ctx.p_bytes, n_bytes // len(windows), batch=100)
         if ctx.stop():
             return
+    if ctx.thorough() and ctx.w == 0:
+        fuzz_phase(ctx)
     if ctx.extra.get("unconfirmed_deaths"):
         raise Inconclusive("%d driver deaths could not be reproduced alone in a fresh driver" % ctx.extra["unconfirmed_deaths"])
+
+
+def fuzz_phase(ctx):
+    """coverage-guided campaign on the model_any target seeded with all shipped models; every crashing input is re-judged through the
+    driver probe on both builds, so that signatures, confirmation of deaths/hangs and known findings are those of the other parts;
+    the saved libFuzzer input is the replay file"""
+    import hashlib
+    from .. import fuzzrun
+    if not fuzzrun.build(ctx.log):
+        ctx.extra["fuzz"] = {"skipped": "fuzz targets could not be built (tooling), no verdict from this phase"}
+        return
+    all_stats = []
+    for variant, globs in (("seeded", [os.path.join(REPO, "**", "*.dmn")]), ("empty-corpus", [])):
+        stats, crashes = fuzzrun.campaign(ctx, "model_any", PROP, globs, runs=ctx.scale(50000, 3000000) if variant == "seeded" else ctx.scale(20000, 500000),
+                                          max_len=60000, timeout_s=3 * 3600)
+        stats["variant"] = variant
+        all_stats.append(stats)
+        for c in crashes:
+            try:
+                text = c["data"].decode("utf-8")
+            except UnicodeDecodeError:
+                continue
+            key = "fuzz:" + hashlib.sha1(c["data"]).hexdigest()[:12]
+            MINIMAL[key] = text
+            f, resp = ctx.run_case(ctx.p_min, {"min": key})
+            if f is None:
+                ctx.classes["fuzz: artifact not reproduced through the driver (%s)" % c["kind"]] += 1
+            elif ctx.is_known(f.sig):
+                ctx.report(ctx.p_min.name, {"min": key}, f)
+            else:
+                ctx.violations.append({"part": "fuzz:model_any", "signature": f.sig, "message": f.msg, "replay": c["path"]})
+                print("VIOLATION property=%s replay=%s" % (PROP, c["path"]), flush=True)
+                print("  fuzz target model_any: %s" % f.msg[:1500], flush=True)
+                continue
+            try:
+                os.remove(c["path"])
+            except OSError:
+                pass
+    ctx.extra["fuzz"] = all_stats
 
 
 if __name__ == "__main__":
